@@ -11,6 +11,9 @@ namespace Pike
 namespace C11
 open LRU
 
+/-- Obligation on the extracted facts: pike's own code uses no `sync.Pool` — the key under which an entry sits in a shard's table is not a view of a buffer that a later request rewrites (a table whose keys change under it no longer finds what the recency list evicts). -/
+theorem facts_no_pooled_buffers : Facts.syncPoolSites = [] := by decide
+
 /-- Obligation on the translated size computation: for every configured size S ≥ 1 the zone
 count is ≥ 1, the per-zone limit is ≥ 1 (0 would mean "unlimited"), and zones × limit ≤ S. -/
 theorem sizes_ok (S : Int) (h : 1 ≤ S) :
